@@ -108,13 +108,15 @@ def dict_readable(v):
     return isinstance(v, str) and v != ''
 
 
-def build_model(cells, names=None, default_sheet='Sheet1', build_code=True):
+def build_model(cells, names=None, default_sheet='Sheet1', build_code=True,
+                per_sheet=True):
     """cells: {address: python value | '=formula'}; names: {name: target with
     or without $}.  The model is compiled sheet by sheet with the dict reader
     (so that unqualified references mean "this sheet" on every sheet).
     Constants the dict reader cannot take (None, '', datetime) are installed
     with set_cell_value after compilation - all through public API."""
     mc = ModelCompiler()
+    split_sheets = per_sheet
     per_sheet = {}
     late = {}
     for a, v in cells.items():
@@ -127,6 +129,15 @@ def build_model(cells, names=None, default_sheet='Sheet1', build_code=True):
     if not per_sheet:
         per_sheet[default_sheet] = {}
     order = sorted(per_sheet, key=lambda s: (s != default_sheet,))
+    if not split_sheets:
+        # everything in one read_and_parse_dict call (every formula is then
+        # tokenised as if it lived on the default sheet)
+        allc = {}
+        for sheet in order:
+            allc.update(per_sheet[sheet])
+        model = mc.read_and_parse_dict(
+            allc, default_sheet=default_sheet, build_code=False)
+        order = []
     for sheet in order:
         model = mc.read_and_parse_dict(
             per_sheet[sheet], default_sheet=sheet, build_code=False)
